@@ -136,6 +136,16 @@ def concrete_layout(payload, identity=None):
     return identity, lay, False
 
 
+def repo_maps(cons):
+    """(prnmap, sigmap) of the repository for a constellation prefix; tolerant of a re-keyed table (by constellation name)"""
+    from pyrtcm.rtcmtables import PRNSIGMAP
+    name = msm_spec()['constellations'][cons]['name']
+    for k in (cons, name, name.title(), "IRNSS" if name == "NAVIC" else name, "NavIC" if name == "NAVIC" else name):
+        if k in PRNSIGMAP:
+            return PRNSIGMAP[k]
+    return {}, {}
+
+
 def prn_expect(cons, sat_id):
     """(expected normalised label, pinned?)   normalised: int PRN number, special name or 'N/A'"""
     s = msm_spec()['constellations'][cons]
@@ -246,7 +256,7 @@ def compare_attrs(identity, exp, got, labelmsm, checks):
         elif isinstance(ev, tuple) and ev[0] == 'sig':
             if 'msm' not in checks:
                 continue
-            sigmap = PRNSIGMAP[cons][1]
+            sigmap = repo_maps(cons)[1]
             opt = 2 if labelmsm == 2 else 1
             e, pinned = sig_expect(cons, ev[1], opt, sigmap)
             if pinned:
